@@ -23,7 +23,7 @@ def xin : Id := 1
 
 /-- the Go function (package common) whose statement panics -/
 inductive Site
-  | GetExtraLimit | PayloadMarshal | validateUTXO | validateInputs | validateMint
+  | GetExtraLimit | Validate | validateUTXO | validateInputs | validateMint
   | verifyDepositData | validateDeposit | validateWithdrawalClaim | validateNodeCancel
   | validateNodeAccept | validateNodeRemove | validateCustodianUpdateNodes
   | NodeTransactionExtraAsSigner | validateWithdrawalSubmit | validateNodePledge
@@ -720,7 +720,7 @@ def validateM (L : Ledger) (O : Oracle) (tx : Tx) (fork : Bool) : M (Nat × Nat)
   guardRej (tx.extraLen > limit)
   -- PayloadMarshal: config.Debug (const true) re-decodes the payload and panics on failure;
   -- the re-decode refuses more than TransactionMaximumSize bytes
-  guardPan (tx.payloadSize > txMaxSize) .PayloadMarshal
+  guardPan (tx.payloadSize > txMaxSize) .Validate
   guardRej (tx.payloadSize > txMaxSize)
   match tx.agg with
   | some _ => guardRej tx.sigs.isSome
